@@ -566,6 +566,19 @@ def run_property(pid, tier, seed, replay_file=None):
                       'scripts of layercake commands: the theorems about mounts no longer speak about this kernel/code '
                       'combination; no input on which the property predicate fails was found' % (len(ref_bad), referee['runs']),
                       nofail=True, extra={'broken': 'correspondence Kernel.v / real kernel (referee)', 'referee': ref_bad[:3]})
+    # a case outside the model's domain (wf false) is neither compared nor judged.  Inputs that
+    # the harness derives from the implementation's own answers take part in wf for some
+    # properties, so a change that makes the implementation answer differently can push cases out
+    # of the domain instead of into a mismatch: when a quarter of the cases are out of domain
+    # (unchanged tree: at most 6 %) the correspondence no longer covers what it is meant to cover
+    if not violations and not replay_file and len(cases_all) >= 20 and 4 * len(ood) > len(cases_all):
+        i = ood[0]
+        add_violation(cases_all[i], verd_all[i],
+                      'domain collapse: %d of %d cases are outside the domain of the model (%s wf is false on them); '
+                      'the theorems of Properties/%s.v speak about inputs the implementation is no longer run on; '
+                      'no input on which the property predicate fails was found'
+                      % (len(ood), len(cases_all), cfg['verdict'], pid), nofail=True,
+                      extra={'broken': 'correspondence %s (domain)' % cfg['verdict']})
     if evalerr and not violations:
         raise Broken('case evaluation failed in Coq:\n' + '\n'.join(errors_all[:3]))
 
